@@ -2,7 +2,7 @@
 
    In-memory: /repo/cache/l2inmemorycache.go (Lock, DualLock, IsLocked, IsLockedTTL,
    IsLockedByOthers, Unlock) over /repo/cache/l2inmemorycache.sharded_map.go
-   (bounded shards, loadOrStore evicts when the shard is full).
+   (bounded shards; loadOrStore evicts an expired entry when the shard is full, never a held lock).
    Redis adapter: /repo/adapters/redis/locker.go over a Redis string table with TTLs.
 
    One service command is one atomic step (hypothesis, named in the trusted base).
@@ -108,43 +108,59 @@ Definition sample_size : nat := Z.to_nat lockEvictionSampleSize.
 Definition shard_entries (cfg : imcfg) (t : table) (s : N) : table :=
   filter (fun e => im_shard cfg (fst e) =? s) t.
 
-(* loadOrStore on a full shard: the map iteration yields an arbitrary sample of
-   min(sampleSize, len) entries; the victim is a sampled entry with the earliest
-   expiry (first one wins a tie, iteration order arbitrary).  c can be the victim
-   iff enough other entries with expiry >= c's exist to fill the sample. *)
-Definition valid_in (sh : table) (c : key * entry) : bool :=
+(* loadOrStore on a full shard (after the fix "never evict a held lock"): the map
+   iteration yields an arbitrary sample of min(sampleSize, len) entries; entries that
+   are unexpired locks (isHeldLock) are skipped; the victim is a sampled EXPIRED entry
+   with the earliest expiry (first one wins a tie, iteration order arbitrary).  If the
+   sample holds no expired entry the fallback deletes the first expired entry of the
+   whole shard, and if there is none nothing is evicted and the shard grows.
+   Hence c can be the victim iff it is expired and enough other entries that are
+   either held or expire no earlier than c exist to fill the sample (the fallback is
+   the case where all of them are held). *)
+Definition entry_live (now : N) (e : key * entry) : bool := negb (expired now (snd (snd e))).
+
+Definition valid_in (now : N) (sh : table) (c : key * entry) : bool :=
+  negb (entry_live now c) &&
   Nat.leb (Nat.min sample_size (length sh) - 1)
-          (length (filter (fun e => negb (fst e =? fst c) && exp_le (snd (snd c)) (snd (snd e))) sh)).
+          (length (filter (fun e => negb (fst e =? fst c) &&
+                                    (entry_live now e || exp_le (snd (snd c)) (snd (snd e)))) sh)).
 
-Definition im_victims (cfg : imcfg) (t : table) (k : key) : table :=
-  let sh := shard_entries cfg t (im_shard cfg k) in filter (valid_in sh) sh.
+(* the table holds no unexpired entry for k *)
+Definition not_held (now : N) (k : key) (t : table) : bool :=
+  match live now k t with Some _ => false | None => true end.
 
-(* [k] if the table holds an unexpired entry for k *)
-Definition live_key (now : N) (k : key) (t : table) : list key :=
-  match live now k t with Some _ => [k] | None => [] end.
+(* (the table is duplicate-free, so not_held repeats the first test of valid_in; it is
+   stated through lookup so that the proofs need no NoDup invariant) *)
+Definition im_victims (cfg : imcfg) (now : N) (t : table) (k : key) : table :=
+  let sh := shard_entries cfg t (im_shard cfg k) in
+  filter (fun c => not_held now (fst c) t && valid_in now sh c) sh.
 
-(* post table, response, keys of UNEXPIRED entries evicted during the command *)
-Definition outcome := (table * resp * list key)%type.
-Definition add_ev (ev : list key) (out : outcome) : outcome := (fst out, ev ++ snd out).
+(* the tables loadOrStore may insert the new key k into *)
+Definition make_room (cfg : imcfg) (now : N) (t : table) (k : key) : list table :=
+  if Nat.leb (im_cap cfg) (length (shard_entries cfg t (im_shard cfg k))) then
+    match im_victims cfg now t k with
+    | [] => [t]                               (* only held locks: no eviction, the shard grows *)
+    | vs => map (fun c => remove (fst c) t) vs
+    end
+  else [t].
+
+(* post table and response *)
+Definition outcome := (table * resp)%type.
 
 Fixpoint im_lock_loop (cfg : imcfg) (now : N) (o : owner) (e : expiry)
          (ks acq : list key) (t : table) : list outcome :=
   match ks with
-  | [] => [(t, (true, None), [])]
+  | [] => [(t, (true, None))]
   | k :: r =>
       match lookup k t with
       | None =>
-          (* loadOrStore stores; a full shard evicts first *)
-          if Nat.leb (im_cap cfg) (length (shard_entries cfg t (im_shard cfg k))) then
-            flat_map (fun c : key * entry =>
-                        map (add_ev (live_key now (fst c) t))
-                            (im_lock_loop cfg now o e r (k :: acq) (upsert k (o, e) (remove (fst c) t))))
-                     (im_victims cfg t k)
-          else im_lock_loop cfg now o e r (k :: acq) (upsert k (o, e) t)
+          (* loadOrStore stores; a full shard evicts an expired entry first if it has one *)
+          flat_map (fun t2 => im_lock_loop cfg now o e r (k :: acq) (upsert k (o, e) t2))
+                   (make_room cfg now t k)
       | Some (o', e') =>
           if expired now e' then im_lock_loop cfg now o e r (k :: acq) (upsert k (o, e) t)  (* expiry CAS *)
           else if o' =? o then im_lock_loop cfg now o e r acq t                              (* re-entry, TTL untouched *)
-          else [(release_own o acq t, (false, Some o'), [])]                                  (* rollback *)
+          else [(release_own o acq t, (false, Some o'))]                                      (* rollback *)
       end
   end.
 
@@ -173,31 +189,28 @@ Definition refresh (o : owner) (e : expiry) (ks : list key) (t : table) : table 
 Definition im_others (s : imstate) (ks : list key) : bool :=
   existsb (fun k => match live (im_now s) k (im_tbl s) with Some _ => true | None => false end) ks.
 
-Definition im_out (now : N) (out : outcome) : imstate * resp * list key :=
-  (mkIm (fst (fst out)) now, snd (fst out), snd out).
+Definition im_out (now : N) (out : outcome) : imstate * resp := (mkIm (fst out) now, snd out).
 
-Definition im_lock (cfg : imcfg) (s : imstate) (o : owner) (d : N) (ks : list key) : list (imstate * resp * list key) :=
+Definition im_lock (cfg : imcfg) (s : imstate) (o : owner) (d : N) (ks : list key) : list (imstate * resp) :=
   map (im_out (im_now s))
       (im_lock_loop cfg (im_now s) o (Some (im_now s + im_ttl cfg d)) (sort_keys ks) [] (im_tbl s)).
 
-Definition im_step (cfg : imcfg) (s : imstate) (op : op) : list (imstate * resp * list key) :=
+Definition im_step (cfg : imcfg) (s : imstate) (op : op) : list (imstate * resp) :=
   match op with
   | OLock o d ks => im_lock cfg s o d ks
   | ODualLock o d ks =>
-      map (fun out : imstate * resp * list key =>
-             if fst (snd (fst out))
-             then (fst (fst out), (im_is_locked (fst (fst out)) o ks, None), snd out)
-             else out)
+      map (fun out : imstate * resp =>
+             if fst (snd out) then (fst out, (im_is_locked (fst out) o ks, None)) else out)
           (im_lock cfg s o d ks)
-  | OIsLocked o ks => [(s, (im_is_locked s o ks, None), [])]
+  | OIsLocked o ks => [(s, (im_is_locked s o ks, None))]
   | OIsLockedTTL o d ks =>
       let c := im_ttl_check (im_now s) o ks (im_tbl s) in
       if fst c
-      then [(mkIm (refresh o (Some (im_now s + d)) ks (im_tbl s)) (im_now s), (true, None), [])]
-      else [(mkIm (snd c) (im_now s), (false, None), [])]
-  | OIsLockedByOthers ks => [(s, (im_others s ks, None), [])]
-  | OUnlock o ks => [(mkIm (release_own o ks (im_tbl s)) (im_now s), (true, None), [])]
-  | OTick n => [(mkIm (im_tbl s) (im_now s + n), (true, None), [])]
+      then [(mkIm (refresh o (Some (im_now s + d)) ks (im_tbl s)) (im_now s), (true, None))]
+      else [(mkIm (snd c) (im_now s), (false, None))]
+  | OIsLockedByOthers ks => [(s, (im_others s ks, None))]
+  | OUnlock o ks => [(mkIm (release_own o ks (im_tbl s)) (im_now s), (true, None))]
+  | OTick n => [(mkIm (im_tbl s) (im_now s + n), (true, None))]
   end.
 
 (* ------------------------------------------------------------ Redis adapter *)
@@ -365,17 +378,16 @@ Definition bel_update (t' : table) (now : N) (p : op) (rs : resp) (b : belief) :
 
 Definition no_belief : belief := fun _ _ => None.
 
-(* all runs of a list of commands; the second component collects the hazard events *)
-Definition imrun := (imstate * belief * list key)%type.
+(* all runs of a list of commands (every eviction-victim choice) *)
+Definition imrun := (imstate * belief)%type.
 
 Fixpoint im_run (cfg : imcfg) (ops : list op) (s : imstate) (b : belief) : list imrun :=
   match ops with
-  | [] => [(s, b, [])]
+  | [] => [(s, b)]
   | p :: r =>
-      flat_map (fun out : imstate * resp * list key =>
-                  let s' := fst (fst out) in
-                  map (fun x : imrun => (fst x, snd out ++ snd x))
-                      (im_run cfg r s' (bel_update (im_tbl s') (im_now s') p (snd (fst out)) b)))
+      flat_map (fun out : imstate * resp =>
+                  let s' := fst out in
+                  im_run cfg r s' (bel_update (im_tbl s') (im_now s') p (snd out) b))
                (im_step cfg s p)
   end.
 
